@@ -217,6 +217,14 @@ fn classify(src: &str, e: &Expr) -> Result<Vec<Option<bool>>, String> {
             }
             Err(_) => out.extend([None, None, None, None, None]),
         }
+        // the interpolation as a child of elements of other kinds (raw-text and escapable-raw-text elements included): what an
+        // interpolation is does not depend on the element around it
+        for tag in ["style", "title", "textarea", "script", "option", "p"] {
+            match parse_src::<Root>(&format!("{tag} {{ ({src}) }}")) {
+                Some(root) => out.push(Some(squash(cg.root(&root)).contains(":: sycamore :: rt :: View :: from_dynamic (move ||"))),
+                None => out.push(None),
+            }
+        }
         out
     })
 }
@@ -273,7 +281,7 @@ fn exec_src(src: &str) -> Option<(String, String, Option<String>, bool)> {
             let all_static = known.iter().all(|x| !*x);
             let obs = if all_dyn { "dyn".to_string() } else if all_static { "static".to_string() } else { format!("mixed{:?}", sites) };
             let verdict = if ce && !all_dyn {
-                Some(format!("[static-with-eval] `{src}` contains an evaluation outside closures but is emitted as a static value (sites child,attr,view-child,view-attr,view-hyphen,view-prop,view-quoted = {:?})", sites))
+                Some(format!("[static-with-eval] `{src}` contains an evaluation outside closures but is emitted as a static value (sites child,attr,view-child,view-attr,view-hyphen,view-prop,view-quoted,child of style/title/textarea/script/option/p = {:?})", sites))
             } else {
                 None
             };
